@@ -125,6 +125,9 @@ type concRun struct {
 	nkeys     int
 }
 
+// concBatchPuts makes runConcurrent issue part of its puts as single-entry batches (set by C08 only).
+var concBatchPuts atomic.Bool
+
 func runConcurrent(c *core.Ctx, eng *engine.EngineFacade, r *core.Rand, nclients, nkeys, perClient int, withMaint bool) *concRun {
 	keys := make([]string, nkeys)
 	for i := range keys {
@@ -169,7 +172,14 @@ func runConcurrent(c *core.Ctx, eng *engine.EngineFacade, r *core.Rand, nclients
 				t0 := now()
 				switch in.Op {
 				case 'p':
-					if err := eng.Put([]byte(k), []byte(in.Val)); err != nil {
+					var err error
+					if concBatchPuts.Load() && rr.Chance(40) {
+						// the same write through the batch path of the log (the sequence counter is advanced at a different point there)
+						err = eng.ApplyBatch([]*wal.Entry{{Type: wal.OpTypePut, Key: []byte(k), Value: []byte(in.Val)}})
+					} else {
+						err = eng.Put([]byte(k), []byte(in.Val))
+					}
+					if err != nil {
 						out.Err = err.Error()
 						errs.Add(1)
 					}
@@ -415,6 +425,10 @@ func runC08(c *core.Ctx, res *core.Result) {
 	}
 	if c.Idx%24 == 11 {
 		c08RetentionAtAck(c, res)
+		return
+	}
+	if c.Idx%48 == 17 {
+		c08BatchVsRotation(c, res)
 		return
 	}
 	switch c.Idx % 6 {
@@ -683,7 +697,9 @@ func c08Concurrent(c *core.Ctx, res *core.Result) {
 			time.Sleep(50 * time.Microsecond)
 		}
 	}()
+	concBatchPuts.Store(true)
 	run := runConcurrent(c, eng, r, r.Range(3, 8), r.Range(2, 5), r.Range(15, 40), true)
+	concBatchPuts.Store(false)
 	stop.Store(true)
 	swg.Wait()
 	verifhook.SetYield(0, 0)
